@@ -59,6 +59,7 @@ def main():
     ap.add_argument('--only', default='')
     ap.add_argument('--jobs', type=int, default=2)
     ap.add_argument('--pending', action='store_true', help="only the seeds whose meta.json says detected_by == 'pending'")
+    ap.add_argument('--older', action='store_true', help="only the seeds recorded against an earlier /repo commit than the current HEAD")
     a = ap.parse_args()
     names = sorted(n for n in os.listdir(SEEDS) if os.path.exists(os.path.join(SEEDS, n, 'patch.diff')))
     if a.only:
@@ -66,6 +67,9 @@ def main():
         names = [n for n in names if any(n.startswith(k) for k in keys)]
     if a.pending:
         names = [n for n in names if json.load(open(os.path.join(SEEDS, n, 'meta.json'))).get('detected_by') == 'pending']
+    if a.older:
+        head = sh('git -C /repo rev-parse HEAD').stdout.strip()
+        names = [n for n in names if json.load(open(os.path.join(SEEDS, n, 'meta.json'))).get('base_commit') != head]
     sh(os.path.join(HERE, 'setup.sh'))
     bad = 0
     with concurrent.futures.ThreadPoolExecutor(a.jobs) as ex:
